@@ -49,7 +49,56 @@ def inner_join_ok(prog, name):
     return all(r["n"] != n for r in prog["rels"] if r["k"] == "sub") and all(b["n"] != n for b in prog["branch2"])
 
 
+def tree(rnd, leaves, depth):
+    """a random expression tree of the given depth whose column references are exactly `leaves` (each once); the operators
+    are those of the property: functions, CAST, CASE, arithmetic, concatenation, comparison, parentheses, window functions"""
+    leaves = list(leaves)
+    if depth == 0 or (len(leaves) <= 1 and rnd.random() < 0.15):
+        if not leaves:
+            return rnd.choice(["1", "0", "'x'"])
+        return " + ".join(leaves)
+
+    def split():
+        if len(leaves) >= 2:
+            k = rnd.randrange(1, len(leaves))
+            return leaves[:k], leaves[k:]
+        return (leaves, []) if rnd.random() < 0.5 else ([], leaves)
+    op = rnd.choice(["paren", "func1", "func2", "cast", "bin", "bin", "case", "case_simple", "window", "neg", "cmp_case", "coalesce", "nullif"])
+    if op == "paren":
+        return "(%s)" % tree(rnd, leaves, depth - 1)
+    if op == "func1":
+        return "%s(%s)" % (rnd.choice(["upper", "abs", "max", "trim"]), tree(rnd, leaves, depth - 1))
+    if op == "cast":
+        return "cast(%s as %s)" % (tree(rnd, leaves, depth - 1), rnd.choice(["varchar", "int", "decimal(10, 2)"]))
+    if op == "neg":
+        return "- %s" % tree(rnd, leaves, depth - 1) if depth > 1 else "- (%s)" % tree(rnd, leaves, 0)
+    if op == "coalesce":
+        return "coalesce(%s, %s)" % (tree(rnd, leaves, depth - 1), rnd.choice(["0", "'n'"]))
+    a, b = split()
+    if op == "func2":
+        return "%s(%s, %s)" % (rnd.choice(["concat", "greatest", "nullif"]), tree(rnd, a, depth - 1), tree(rnd, b, depth - 1))
+    if op == "nullif":
+        return "nullif(%s, %s)" % (tree(rnd, a, depth - 1), tree(rnd, b, depth - 1))
+    if op == "bin":
+        return "%s %s %s" % (tree(rnd, a, depth - 1), rnd.choice(["+", "-", "*", "/", "||"]), tree(rnd, b, depth - 1))
+    if op == "case":
+        return "case when %s > 0 then %s else %s end" % (tree(rnd, a, depth - 1), tree(rnd, b, depth - 1), rnd.choice(["0", "null"]))
+    if op == "cmp_case":
+        return "case when (%s = %s) then 1 else 0 end" % (tree(rnd, a, depth - 1), tree(rnd, b, depth - 1))
+    if op == "case_simple":
+        return "case %s when 1 then %s else 0 end" % (tree(rnd, a, depth - 1), tree(rnd, b, depth - 1))
+    if op == "window":
+        return "sum(%s) over (partition by %s)" % (tree(rnd, a, depth - 1), tree(rnd, b, depth - 1) if b else "1")
+    raise ValueError(op)
+
+
 def expr(form, refs):
+    if form.startswith("tree:") and refs and not any(a.endswith("*") or a.startswith("(select") for a in refs):
+        import random
+        rnd = random.Random(form)
+        return tree(rnd, refs, rnd.choice([1, 2, 3, 3]))
+    if form.startswith("tree:"):
+        form = "plain" if len(refs) <= 1 else "arith"
     if len(refs) == 0:
         return "1"
     if len(refs) == 1:
